@@ -56,6 +56,16 @@ def cases(seed, tier):
         for cat in CATS:
             if not p[cat]:
                 p[cat] = [rng.choice(gen.db_names(cat)).replace('-*', '-AAAA')]
+        rp = gen.case_rng(seed, ID, i, 'punct')
+        if rp.random() < 0.15:
+            # RFC 4251 names may hold any printable US-ASCII character but the comma: the characters that mean something to a key = value
+            # file (comment signs, quotes, separators, brackets) must survive the trip through the policy file
+            pool = ['#pq-hybrid-draft@example.com', 'name#tag@example.com', ';semi@example.com', 'key=value@example.com', 'a:b@example.com', '[bracket]', '{brace}', "it's@example.com",
+                    'dou"ble@example.com', '"quoted"', 'back\\slash', '%percent%', '!bang', '*star*', '//slashes', '-leading-dash', 'trailing-dash-', '=eq', '#']
+            for _ in range(rp.randrange(1, 3)):
+                cat = rp.choice(CATS)
+                p[cat] = list(p[cat])
+                p[cat].insert(rp.randrange(len(p[cat]) + 1), rp.choice(pool))
         if rng.random() < 0.6 and not any(k in gen.RSA_FAMILY for k in p['key']):
             p['key'].append('rsa-sha2-512')
         if rng.random() < 0.4 and 'ssh-rsa-cert-v01@openssh.com' not in p['key']:
